@@ -335,6 +335,18 @@ def parseAreaComp (sph : Bool) (corners : List (P2 R)) (model : String) (c : Cur
     let op ← pmLift c.getOp
     if comps.length != mn.length || comps.length != mx.length then pmErr .length
     return .random rng op comps mn mx
+  | "tian water content" => do
+    -- oceanic plate only (the other area features do not register it; their schema rejects the name)
+    let density ← pmLift (c.getNum "density")
+    let comps ← pmLift (c.getNatVec "compositions")
+    let maxWater ← pmLift (c.getNum "initial water content")
+    let op ← pmLift c.getOp
+    let cutoff ← pmLift (c.getNum "cutoff pressure")
+    let lith ← pmLift (c.getStr "lithology")
+    -- any other string leaves `lithology_type` uninitialised in the C++ (no check, not an enum in the schema): not modelled
+    match Lithology.ofString lith with
+    | none => pmErr .unsupported
+    | some l => return .tianWater rng op comps ⟨density, l, maxWater, cutoff⟩
   | _ => pmErr .unsupported
 
 def parseAreaVel (sph : Bool) (kind : Nat) (corners : List (P2 R)) (model : String) (c : Cur) : PM R (VelModel R) := do
@@ -560,6 +572,22 @@ def parseLineComp (isFault : Bool) (model : String) (c : Cur) : Except Err (Line
       let comps ← c.getNatVec "compositions"
       if comps.length != tf.length || comps.length != bf.length then .error .length
       return .smooth mn mx (fabs (mx - mn)) op comps tf bf
+  | "tian water content" =>
+    -- subducting plate only (faults do not register it; their schema rejects the name)
+    if isFault then .error .unsupported
+    else do
+      let mn : R ← c.getNum "min distance slab top"
+      let mx : R ← c.getNum "max distance slab top"
+      let density : R ← c.getNum "density"
+      let comps ← c.getNatVec "compositions"
+      let maxWater : R ← c.getNum "initial water content"
+      let cutoff : R ← c.getNum "cutoff pressure"
+      let op ← c.getOp
+      let lith ← c.getStr "lithology"
+      -- any other string leaves `lithology_type` uninitialised in the C++: not modelled
+      match Lithology.ofString lith with
+      | none => .error .unsupported
+      | some l => return .tianWater mn mx op comps ⟨density, l, maxWater, cutoff⟩
   | _ => .error .unsupported
 
 def parseLineVel (isFault : Bool) (model : String) (c : Cur) : Except Err (LineVel R) := do
@@ -584,6 +612,30 @@ def parseLineGrains (isFault : Bool) (model : String) (c : Cur) : Except Err (Li
     if comps.length != mats.length then .error .length
     if comps.length != sizes.length then .error .length
     return .uniform mn mx comps mats sizes
+  | "random uniform distribution" => do
+    let mn : R ← c.getNum (if isFault then "min distance fault center" else "min distance slab top")
+    let mx : R ← c.getNum (if isFault then "max distance fault center" else "max distance slab top")
+    let comps ← c.getNatVec "compositions"
+    let _ ← c.getStr "orientation operation"
+    let sizes ← c.getNumVec "grain sizes"
+    let norm ← c.getBoolVec "normalize grain sizes"
+    if comps.length != sizes.length then .error .length
+    if comps.length != norm.length then .error .length
+    return .randomUniform mn mx comps sizes norm
+  | "random uniform distribution deflected" => do
+    let mn : R ← c.getNum (if isFault then "min distance fault center" else "min distance slab top")
+    let mx : R ← c.getNum (if isFault then "max distance fault center" else "max distance slab top")
+    let comps ← c.getNatVec "compositions"
+    let basis ← getRotations c "basis Euler angles z-x-z" "basis rotation matrices"
+    let _ ← c.getStr "orientation operation"
+    let sizes ← c.getNumVec "grain sizes"
+    let norm ← c.getBoolVec "normalize grain sizes"
+    let defl ← c.getNumVec "deflections"
+    if comps.length != sizes.length then .error .length
+    if comps.length != norm.length then .error .length
+    if comps.length != defl.length then .error .length
+    if comps.length != basis.length then .error .length
+    return .randomUniformDeflected mn mx comps basis sizes norm defl
   | _ => .error .unsupported
 
 /-- one entry of a `segments` array -/
